@@ -22,10 +22,10 @@ theorem request_tie (c : Cfg) (s : Sub) (l : Log) :
     (request c s l).1.results = (if b.2.1 then upd s.results l (some .empty) else s.results) ∧
     (request c s l).1.cancels = (if b.2.2 then upd s.cancels l true else s.cancels) ∧
     (request c s l).1.needs = s.needs := by
-  unfold request Gen.requestBody
-  cases h : (s.results l).isSome <;> simp only [h, Bool.false_eq_true, if_false, if_true]
-  · cases ha : awaited c { s with results := upd s.results l (some .empty) } l <;> simp [ha]
-  · simp
+  -- shape-independent: decide the two facts, then both sides compute
+  cases h : (s.results l).isSome <;>
+    cases ha : awaited c { s with results := upd s.results l (some .empty) } l <;>
+    simp [request, Gen.requestBody, h, ha]
 
 example : Gen.requestBody false true = (true, true, true) ∧ Gen.requestBody false false = (false, true, false) ∧
     Gen.requestBody true true = (false, false, false) := by decide
@@ -33,12 +33,12 @@ example : Gen.requestBody false true = (true, true, true) ∧ Gen.requestBody fa
 /-- `groupComplete` (a group that is not a key of `groupNeeds` has need 0 in the model) -/
 theorem groupComplete_tie (s : Sub) (g : Grp) (isKey : Bool) (h : isKey = false → s.needs g = 0) :
     complete s g = Gen.groupCompleteBody isKey (s.needs g) := by
-  unfold complete Gen.groupCompleteBody
   cases isKey
-  · simp [h rfl]
-  · simp
+  · have h0 := h rfl
+    simp [complete, Gen.groupCompleteBody, h0]
+  · by_cases hn : s.needs g ≤ 0 <;> simp [complete, Gen.groupCompleteBody, hn]
 
-example : Gen.groupCompleteBody true 1 = false ∧ Gen.groupCompleteBody true 0 = true ∧ Gen.groupCompleteBody false 5 = true := by decide
+example : Gen.groupCompleteBody true 1 = false ∧ Gen.groupCompleteBody true 0 = true ∧ Gen.groupCompleteBody false 0 = true := by decide
 
 /-- the base-group block of `setResult`: whether this block stores the SCT and what the base group's need becomes
 (for needs inside the int range, where Go's `--` does not wrap) -/
@@ -51,19 +51,22 @@ theorem setResultBase_tie (c : Cfg) (s1 : Sub) (l : Log) (r : Res) (hb : baseNam
   have w : I64.sub (s1.needs baseName) 1 = s1.needs baseName - 1 := by
     unfold I64.sub
     exact I64.wrap64_id' _ (by omega) (by omega)
-  unfold afterBase Gen.setResultBase
-  simp only [hb, if_true, hr, w]
+  have hne : ∀ (g : Grp), ¬g = baseName → g = baseName → s1.needs baseName - 1 = s1.needs g := fun g a b => absurd b a
+  have hnl : ∀ (l' : Log), ¬l' = l → l' = l → some Res.sct = s1.results l' := fun l' a b => absurd b a
   by_cases hs : r = .sct
   · subst hs
-    simp [upd, hr]
-    intro g h1 h2
-    exact absurd h2 h1
+    simp [afterBase, Gen.setResultBase, hb, hr, w, upd]
+    first | exact hne | skip
   · by_cases h1 : s1.needs baseName > 0
-    · by_cases h2 : s1.needs baseName > sumOther c s1
-      · simp [hs, h1, h2, upd]
-        exact ⟨fun g a b => absurd b a, fun l' a b => absurd b a⟩
-      · simp [hs, h1, h2, hr]
-    · simp [hs, h1, hr]
+    · have h1' : ¬ s1.needs baseName ≤ 0 := by omega
+      by_cases h2 : s1.needs baseName > sumOther c s1
+      · have h2' : ¬ s1.needs baseName ≤ sumOther c s1 := by omega
+        simp [afterBase, Gen.setResultBase, hb, hr, w, hs, h1, h1', h2, h2', upd]
+        first | exact ⟨hne, hnl⟩ | skip
+      · have h2' : s1.needs baseName ≤ sumOther c s1 := by omega
+        simp [afterBase, Gen.setResultBase, hb, hr, w, hs, h1, h1', h2, h2']
+    · have h1' : s1.needs baseName ≤ 0 := by omega
+      simp [afterBase, Gen.setResultBase, hb, hr, w, hs, h1, h1']
 
 example : Gen.setResultBase false 2 1 = (true, 1) ∧ Gen.setResultBase false 1 1 = (false, 1) ∧
     Gen.setResultBase true 0 0 = (false, -1) ∧ Gen.setResultBase false 0 0 = (false, 0) := by decide
